@@ -44,6 +44,7 @@ THEOREMS = [
     "PV.C11.plscfColTest_iff",
     "PV.C11.onePerBand_passes",
     "PV.C11.C11_plscf_find_min_premises",
+    "PV.C11.C11_plscf_find_min_order_iff",
     "PV.C11.Mutants.plscf_lab1_last_column_mixes",
     "PV.C11.Mutants.plscf_lab1_single_column_minus_one",
     "PV.C11.Mutants.plscf_lab1_any_accepts_far_pole",
@@ -54,6 +55,7 @@ THEOREMS = [
     # SSI find_min: "one distinct stable value", not "one stable pole"
     "PV.C11.C11_find_min_value_set_only",
     "PV.C11.C11_find_min_from_order_first",
+    "PV.C11.C11_find_min_qual_iff_poles",
     "PV.C11.Mutants.ssi_find_min_counts_values_not_poles",
 ]
 RULE = (
